@@ -459,6 +459,21 @@ def cancel_ok(s, kind, pa):
     A = s.avail
     ins = [e for e in evs if e.kind == 'op' and e.list == A and e.op in ('insert', 'append')]
     rem = [e for e in evs if e.kind == 'op' and e.list == A and e.op in ('pop', 'remove')]
+    if not ins and not rem and kind in ('prefix', 'positional'):
+        # "nothing to move": under the prefix / positional discipline the item of the token at index k of RE sits at index k of A; when the path
+        # conditions say k == |RE| after the cancellation, that is exactly where it would be re-inserted
+        re_ops = [x for x in evs if x.kind == 'op' and x.list == RE]
+        for e in evs:
+            ops = e.d.get('operands') if e.kind == 'cond' and not e.d.get('synthetic') else None
+            if not ops or ops[0] not in ('Eq', 'NotEq') or (ops[0] == 'Eq') != bool(e.polarity):
+                continue
+            # |RE| as it is when the test is made - which must be after the token has left RE
+            if not re_ops or evs.index(re_ops[-1]) > evs.index(e):
+                continue
+            re_final = lin.norm(sum_lin([RE], e.d.get('g', {}), e.d.get('dl', {})))
+            for a_, b_ in ((ops[1], ops[2]), (ops[2], ops[1])):
+                if a_ and b_ and a_[0] == 'index' and a_[1] == RE and b_[0] == 'lin' and tuple(b_[1]) == tuple(re_final):
+                    return True, 'released item is already the first unreserved one (token index = |RE| after the cancellation): nothing to move', e
     if len(ins) != 1 or len(rem) != 1:
         return False, f'cancellation performs {len(rem)} removal(s) and {len(ins)} insertion(s) on {A} (expected 1 and 1)', (ins or rem or [None])[0]
     i, rm = ins[0], rem[0]
